@@ -104,6 +104,14 @@ def shape_modules(rng, tier):
             b_ += ([["i32.const", b32(1)], ["end"], ["drop"]] if k[1] == "i32" else [["end"]])
         funcs.append({"type": 0, "locals": [], "body": b_ + [["i32.const", b32(dpt)], ["end"]]})
     mods.append(("vectorsizes", {"types": types, "funcs": funcs, "exports": [{"name": "f%d" % k, "kind": "func", "idx": k} for k in range(0, len(funcs), 7)]}))
+    # float and integer constants of every class in bodies and global initialisers (number formatting in fixed buffers)
+    src7 = open(os.path.join(os.path.dirname(os.path.abspath(__file__)), "c07.py")).read().replace("main_wrap(main)", "")
+    ns7 = {"__file__": os.path.join(os.path.dirname(os.path.abspath(__file__)), "c07.py"), "__name__": "borrowed_c07"}
+    exec(compile(src7, "c07", "exec"), ns7)
+    cs = [("f32", x) for x in ns7["float_pool"](rng, 8, 23, 4, False)] + [("f64", x) for x in ns7["float_pool"](rng, 11, 52, 4, False)] + \
+         [("i32", x) for x in ns7["int_pool"](rng, 32, 4)] + [("i64", x) for x in ns7["int_pool"](rng, 64, 4)]
+    for k_, it_ in enumerate(ns7["build_items"](cs, chunk=400)):
+        mods.append(("consts-%d" % k_, it_["module"]))
     # numbers of entities around powers of two: types, imports, functions, globals, exports, data and element segments
     for cnt in (0, 1, 2, 15, 16, 17, 31, 32, 33, 63, 64, 65, 127, 128, 129, 255, 256, 257):
         tys = [{"p": ["i32"] * (k % 5), "r": ["i32"] if k % 2 else []} for k in range(max(cnt, 1))]
